@@ -288,7 +288,7 @@ def check_failure_op(sc, obs, opi, add, latency_bound=None):
         add('C04', 'same_type_args_attrs', {'got': exc, 'raised_by_user_functions': raised[:3]})
     if not exc.get('cause_has_traceback'):
         add('C04', 'cause_has_worker_traceback', {'cause': exc.get('cause_text')})
-    elif f.get('at') and not any(('Arg 0: %r' % elem_repr(op, i)) in (exc.get('cause_text') or '') or str(i) in (exc.get('cause_text') or '') for i in f['at']):
+    elif f.get('at') and op.get('elem') != 'badrepr' and not any(('Arg 0: %r' % elem_repr(op, i)) in (exc.get('cause_text') or '') or str(i) in (exc.get('cause_text') or '') for i in f['at']):
         add('C04', 'cause_names_failing_arguments', {'cause': (exc.get('cause_text') or '')[:200]})
     if op['op'] in ('map', 'map_unordered') and o.get('result') is not None:
         add('C04', 'map_no_partial', {'result': str(o.get('result'))[:100]})
